@@ -163,6 +163,10 @@ def options(draw, lbls, bounds_emphasis=False, algorithms=("overlap", "overlap",
         if draw(st.integers(0, 11)) == 0:
             # an axis that ends exactly at 0 (bounds are numbers; 0 is as good as any)
             o["minPos"], o["maxPos"] = -W, 0
+    if draw(st.integers(0, 11)) == 0:
+        # the spacing between neighbouring stubs is 2 unless the caller configures it: Force hands every option that
+        # removeOverlap knows through to it, 'lineSpacing' included (seeded change C02-G drops exactly this hand-over)
+        o["lineSpacing"] = draw(st.sampled_from([0, 1, 5, 12, 2.5]))
     return o
 
 
@@ -254,8 +258,8 @@ def ordered(layer):
     return sorted(layer, key=lambda nd: (target(nd), nd.currentPos))
 
 
-def gap_between(a, b, spacing):
-    s = LINE_SPACING if (a.isStub() and b.isStub()) else spacing
+def gap_between(a, b, spacing, line=LINE_SPACING):
+    s = line if (a.isStub() and b.isStub()) else spacing
     return (F(a.width) + F(b.width)) / 2 + F(s)
 
 
@@ -264,7 +268,7 @@ def layer_facts(layer, opts):
     items = ordered(layer)
     G = [F(0)]
     for a, b in zip(items, items[1:]):
-        G.append(G[-1] + gap_between(a, b, opts["nodeSpacing"]))
+        G.append(G[-1] + gap_between(a, b, opts["nodeSpacing"], opts.get("lineSpacing", LINE_SPACING)))
     R = G[-1] + (F(items[0].width) + F(items[-1].width)) / 2
     lo, hi = opts["minPos"], opts["maxPos"]
     A = None if lo is None or hi is None else F(hi) - F(lo)
@@ -354,6 +358,8 @@ def layer_classes(items, G, opts, nlayers):
     ev.append("multi-layer-layout" if nlayers > 1 else "single-layer-layout")
     if any(a.isStub() and b.isStub() for a, b in zip(items, items[1:])):
         ev.append("stub-stub-pair")
+        if opts.get("lineSpacing", LINE_SPACING) != LINE_SPACING:
+            ev.append("stub-stub-pair-with-configured-line-spacing")
     if any(float(w) != int(w) for w in (nd.width for nd in items)):
         ev.append("non-integer-width")
     if any(target(a) == target(b) for a, b in zip(items, items[1:])):
